@@ -41,19 +41,19 @@ type snap struct {
 }
 
 type kase struct {
-	budget int32
-	uid    bool
-	park   []string
-	plan   []byte
-	pdef   byte
-	cmds   []cmd
-	snaps  []snap
-	rounds []roundRec
+	budget   int32
+	uid      bool
+	park     []string
+	plan     []byte
+	pdef     byte
+	cmds     []cmd
+	snaps    []snap
+	rounds   []roundRec
 	mod      string // what the PostDial plugins do to the socket (see world.mod)
 	modFirst bool
-	class  string
-	accepts string
-	badFlag bool
+	class    string
+	accepts  string
+	badFlag  bool
 	noReader bool
 }
 
@@ -413,7 +413,7 @@ func oracle(st *Stats, idx int, k *kase) {
 			pi = i
 		}
 	}
-	idLost, idUnindexed := false, false
+	idLost, idUnindexed, idStale := false, false, false
 	for i, s := range k.snaps {
 		for n, p := range s.pos {
 			if strings.HasPrefix(p, "other") {
@@ -430,7 +430,8 @@ func oracle(st *Stats, idx int, k *kase) {
 			}
 			// an address-derived id follows the connection; behind a conn that renames its
 			// addresses (websocket) the code keeps the address of the first dial verbatim
-			if !k.uid && s.idc != "local" && !(renames(k.mod) && s.idc == "first") {
+			if !k.uid && s.idc != "local" && !(renames(k.mod) && s.idc == "first") && !idStale {
+				idStale = true
 				fail("id-stale", fmt.Sprintf("address-derived id not refreshed (id class %s) after command %d", s.idc, i))
 			}
 			if k.uid && s.idxcur && !s.idxuser && !idUnindexed {
@@ -636,6 +637,27 @@ func oracle(st *Stats, idx int, k *kase) {
 	}
 }
 
+// poolArtifact: a call was refused by the server with code 500 in a case that saturated the pool.
+func poolArtifact(k *kase) bool {
+	sat := false
+	for _, c := range k.cmds {
+		if c.sat {
+			sat = true
+		}
+	}
+	if !sat {
+		return false
+	}
+	for _, s := range k.snaps {
+		for _, p := range s.pos {
+			if p == "other500" {
+				return true
+			}
+		}
+	}
+	return false
+}
+
 func firstN(s string, n int) string {
 	if n < len(s) {
 		return s[:n]
@@ -694,7 +716,21 @@ func main() {
 			st.Count("kind:random")
 		}
 		name := k.class
-		runCase(k, script, rng, 2+rng(10))
+		// The library's goroutine pool is process-wide: while a `sat` release has it filled, the
+		// SERVER peer of the harness may find no goroutine for a handler and refuse the call with
+		// code 500 before the filler goroutines have given their slots back. That is an artifact
+		// of client and server sharing one process, not behaviour of the client session: such a
+		// run is repeated (same configuration and script; a random walk draws a new walk).
+		steps := 2 + rng(10)
+		for try := 0; ; try++ {
+			base := *k
+			runCase(k, script, rng, steps)
+			if try >= 3 || !poolArtifact(k) {
+				break
+			}
+			st.Count("rerun:server-refused-call-while-pool-saturated")
+			*k = kase{budget: base.budget, uid: base.uid, park: base.park, plan: base.plan, pdef: base.pdef, class: base.class, mod: base.mod, modFirst: base.modFirst}
+		}
 		switch {
 		case k.budget == 0:
 			st.Count("budget:0")
@@ -777,6 +813,14 @@ func genCase(k *kase, rng func(int) int) {
 	}
 	for _, g := range optionalGates {
 		if rng(3) == 0 {
+			// the websocket upgrade is I/O on the fresh connection inside the hooks: what happens
+			// to that connection while a round stands between socket.Reset and Ok (a further loss,
+			// the stale reader's socket.Close of the known findings) decides whether the upgrade
+			// succeeds, which is not a hook verdict; random walks with the real mixer therefore do
+			// not park the round there (the wrapper kinds, which do no I/O, do)
+			if k.mod == "ws" && (g == gReset || g == gHook) {
+				continue
+			}
 			k.park = append(k.park, g)
 		}
 	}
